@@ -72,6 +72,7 @@ var streamPoints = []string{"stream.MsgSend.beforeWriteLock", "stream.rawWrite.b
 func genC04(t *rapid.T) c04Case {
 	c := c04Case{Cfg: genCfg(t)}
 	c.Cfg.RawAPI = false // this check judges single library calls; RawWrite+RawFlush is two of them
+	c.Cfg.ManualFlush = false
 	// the handler only receives and sends until the cancellation reaches it (it never ends the RPC by itself)
 	plainStep := rapid.Custom(func(t *rapid.T) sim.Step {
 		return sim.Step{Op: rapid.SampledFrom([]string{"recv", "send"}).Draw(t, "hop"), Size: sizeGen.Draw(t, "hsize")}
